@@ -12,6 +12,8 @@ LEVEL = 'proof'
 RULE = ('exhaustive over operand shapes of rank 1..R with extents 1..E (quick R=3,E=3 plus all rank-4 shapes with extents 1..2; thorough R=4,E=4, results capped in size and '
         'sub-sampled by a fixed stride where the pair space explodes): every NumPy-accepted pair for matmul (both implementations), dot, inner, '
         'outer, vecdot, kron; tensordot with every integer axes 0..min(dim) and every explicit ordered axis pairing (plus negative spellings); '
+        'view::matmul additionally over operands whose number of dimensions is a compile-time constant (std::array shape container: tuple slice lists in index::matmul), fixed-dim x fixed-dim and both mixed pairs; '
+        'a fixed-stride sample of the operand pairs NumPy REFUSES for matmul (both implementations), dot, inner, vecdot, tensordot (integer and explicit axes): expected answer Nothing; '
         'trace over every axis pair (positive and negative spelling) and every offset, negative ones included, with a non-empty diagonal (plus a bounded sample of empty diagonals); index::shape_matmul on ALL pairs '
         '(accepted or not). Integer data (two data sets) so sums are exact and a wrong pairing changes the value. '
         'non-trivial = some contraction / product over an extent > 1')
@@ -35,18 +37,20 @@ ASSUMPTIONS = [
 ]
 PARTIAL = [
     'matmul_elem_eq_sum covers view::matmul for operand ranks >= 2 only: with a 1-d operand the unchanged view throws / is undefined (known finding matmul.v1-1d-operand, matmul_v1_1d_counterexample); matmulv2_eq_def covers all ranks >= 1',
+    'refusals: matmul_isSome_iff / dot_isSome_iff only; for view::matmulv2, inner, vecdot, tensordot the unchanged code accepts operands NumPy refuses (contracted extent 1 against n: known findings matmulv2.contraction-extent-broadcast, C16.contraction-extent-broadcast; matmulv2_contraction_counterexample, contraction_extent_counterexample), so no isSome-iff theorem holds for them before the repair',
     'trace_eq_def covers every offset with a non-empty diagonal (-extent(axis1) < offset < extent(axis2), repaired index::diagonal); empty diagonals (sum over a zero-length axis = 0 since fix commit 10b33c2) are compared with NumPy only here; the Lean statement for every offset is trace_eq_sum_diag_any_offset of C08',
 ]
 MANIFEST = dict(
-    text='Proof: 18 Lean theorems over a symbolic term-list model (for every destination index the ordered list of (lhs index, rhs index) products a routine sums): index::shape_matmul = NumPy rule on all pairs (isSome iff accepted); view::matmul (ranks >= 2) and view::matmulv2 (all ranks >= 1, batch broadcasting, 1-d promotion) sum exactly a[..,i,k]*b[..,k,j], k in order; dot, inner, outer, vecdot, tensordot (integer and explicit axes, negative spellings), kron (incl. the closed form of kron_dst_transpose for all ranks), trace (offsets of either sign, non-empty diagonal) equal their NumPy definitions for every rank/extent. Tied to the C++ on every run by a differential run of all eight routines (element access and eval) + pipeline shape helpers against the model and against NumPy.',
-    note='Lean kernel + propext/Classical.choice/Quot.sound; hand-written model (view combinators reshape/tile/transpose/broadcast-multiply/sum mirrored from the headers), fidelity rests on the correspondence run; broadcast_to index map taken in per-axis form (C06); dynamic-shape arrays only (static/bounded kinds in C09/C11); 1 genuine defect remains a known finding (view::matmul with a 1-d operand); trace over an empty diagonal is repaired in /repo (fix 10b33c2); the negative-offset defect of index::diagonal is repaired in /repo and modelled as repaired.',
+    text='Proof: 22 Lean theorems over a symbolic term-list model (for every destination index the ordered list of (lhs index, rhs index) products a routine sums): index::shape_matmul = NumPy rule on all pairs (isSome iff accepted); view::matmul (ranks >= 2) and view::matmulv2 (all ranks >= 1, batch broadcasting, 1-d promotion) sum exactly a[..,i,k]*b[..,k,j], k in order; dot, inner, outer, vecdot, tensordot (integer and explicit axes, negative spellings), kron (incl. the closed form of kron_dst_transpose for all ranks), trace (offsets of either sign, non-empty diagonal) equal their NumPy definitions for every rank/extent; view::matmul and view::dot answer Nothing exactly on the operand pairs NumPy refuses (matmul_isSome_iff, dot_isSome_iff). Tied to the C++ on every run by a differential run of all eight routines (element access and eval) + pipeline shape helpers against the model and against NumPy.',
+    note='Lean kernel + propext/Classical.choice/Quot.sound; hand-written model (view combinators reshape/tile/transpose/broadcast-multiply/sum mirrored from the headers), fidelity rests on the correspondence run; broadcast_to index map taken in per-axis form (C06); dynamic-shape arrays only (static/bounded kinds in C09/C11); 3 genuine defects remain known findings (view::matmul with a 1-d operand; view::matmulv2 and inner / vecdot / tensordot broadcast a contracted axis of extent 1 where NumPy raises — repairs proposed in fixes/C16-matmul-1d-operand.diff, fixes/C15-contraction-extent.diff); trace over an empty diagonal is repaired in /repo (fix 10b33c2); the negative-offset defect of index::diagonal is repaired in /repo and modelled as repaired.',
     technique='Lean 4 proofs over symbolic term lists (which (lhs index, rhs index) pairs are summed, in order) for every rank/extent + differential correspondence against the real views (element access and eval) + NumPy oracle')
 
 
 def harness_specs(tier):
     return [dict(name='h_c16_mm', src='h_c16_mm.cpp', flavour='fast'),
             dict(name='h_c16_dot', src='h_c16_dot.cpp', flavour='fast'),
-            dict(name='h_c16_td', src='h_c16_td.cpp', flavour='fast')]
+            dict(name='h_c16_td', src='h_c16_td.cpp', flavour='fast'),
+            dict(name='h_c16_mmk', src='h_c16_mmk.cpp', flavour='fast')]
 
 
 # ------------------------------------------------------------------------------------------------
@@ -105,8 +109,70 @@ def trace_empty_diagonal(c):
     return min(n1 + min(o, 0), n2 - max(o, 0)) <= 0
 
 
+def _contracted_pairs(c):
+    """for a request of matmul v2 / inner / vecdot / tensordot: (list of (lhs extent, rhs extent) of the paired axes,
+    lhs shape with those axes set to the partner's extent where it is 1, same for rhs, the NumPy call) or None"""
+    op = c.req.split(' ')[0]
+    a = _args(c)
+    if op not in ('matmul', 'inner', 'vecdot', 'tensordot'):
+        return None
+    sa, sb = _shape(a['a']), _shape(a['b'])
+    if not sa or not sb:
+        return None
+    if op == 'matmul':
+        la, ra = [len(sa) - 1], [0 if len(sb) == 1 else len(sb) - 2]
+        f = np.matmul
+    elif op in ('inner', 'vecdot'):
+        la, ra = [len(sa) - 1], [len(sb) - 1]
+        f = np.inner if op == 'inner' else np.vecdot
+    elif 'axes' in a:
+        n = int(a['axes'])
+        if n > len(sa) or n > len(sb):
+            return None
+        la, ra = list(range(len(sa) - n, len(sa))), list(range(n))
+        f = lambda x, y: np.tensordot(x, y, n)
+    else:
+        la, ra = [int(x) for x in a['la'].split(',')], [int(x) for x in a['ra'].split(',')]
+        if len(la) != len(ra) or any(not -len(sa) <= x < len(sa) for x in la) or any(not -len(sb) <= y < len(sb) for y in ra):
+            return None
+        la, ra = [x % len(sa) for x in la], [y % len(sb) for y in ra]
+        f = lambda x, y: np.tensordot(x, y, (la, ra))
+    sa2, sb2 = list(sa), list(sb)
+    for x, y in zip(la, ra):
+        if sa[x] == 1:
+            sa2[x] = sb[y]
+        elif sb[y] == 1:
+            sb2[y] = sa[x]
+    return [(sa[x], sb[y]) for x, y in zip(la, ra)], sa2, sb2, f
+
+
+def _contraction_extent_broadcast(c):
+    """NumPy refuses the operands only because a contracted axis of extent 1 meets a partner of another extent: with the
+    1 replaced by the partner's extent (what broadcasting the contracted axis amounts to) NumPy accepts"""
+    t = _contracted_pairs(c)
+    if t is None:
+        return False
+    pairs, sa2, sb2, f = t
+    a = _args(c)
+    sa, sb = _shape(a['a']), _shape(a['b'])
+    if all(x == y for x, y in pairs) or any(x != y and x != 1 and y != 1 for x, y in pairs):
+        return False
+    z = lambda s: np.zeros(s, dtype=np.int8)
+    return np_try(lambda: f(z(sa), z(sb))) is None and np_try(lambda: f(z(sa2), z(sb2))) is not None
+
+
+def matmulv2_contraction_extent_broadcast(c):
+    return c.req.startswith('matmul ') and _args(c).get('impl') == 'v2' and _contraction_extent_broadcast(c)
+
+
+def contraction_extent_broadcast(c):
+    return c.req.split(' ')[0] in ('inner', 'vecdot', 'tensordot') and _contraction_extent_broadcast(c)
+
+
 KNOWN_PREDICATES = {
     'matmul_v1_1d_operand': matmul_v1_1d_operand,
+    'matmulv2_contraction_extent_broadcast': matmulv2_contraction_extent_broadcast,
+    'contraction_extent_broadcast': contraction_extent_broadcast,
     'trace_empty_diagonal': trace_empty_diagonal,
 }
 
@@ -127,7 +193,8 @@ def stride_pick(seq, keep):
 def gen(tier, rng):
     # the Lean driver serves these ops under the prefix `c16.` (op names like `outer`, `dot` also exist in other drivers)
     for c in _gen(tier, rng):
-        c.mreq = 'c16.' + c.req
+        if not c.mreq.startswith('c16.'):
+            c.mreq = 'c16.' + c.req
         yield c
 
 
@@ -180,6 +247,10 @@ def _gen(tier, rng):
         yield Case('matmul impl=v2 a=%s b=%s data=%s' % (fmt(a), fmt(b), m), 'h_c16_mm', oracle=orc, nontrivial=nt, tags=tags + ['v2'])
     for a, b in stride_pick(pairs, 400 if quick else 2000):
         yield Case('matmul_helpers a=%s b=%s' % (fmt(a), fmt(b)), 'h_c16_mm', nontrivial=False, tags=['helpers'])
+    # view::matmul over operands whose number of dimensions is a compile-time constant (shape container std::array):
+    # index::matmul then builds tuple slice lists (`if constexpr` branches of their own); same model answer as the
+    # run-time-dim operands.  Mixed pairs (one side fixed-dim, the other run-time) take the run-time branch for one side.
+    yield from matmul_kinds(mm, 220 if quick else 1500, mode)
 
     # ---- dot / inner / outer / vecdot / kron ----
     def binary(op, fn, harness, keep):
@@ -193,8 +264,11 @@ def _gen(tier, rng):
         for a, b in ok:
             m = mode()
             orc = show(fn(mk(a, m, 0), mk(b, m, 1)))
+            tags = [op, 'rank=%d,%d' % (len(a), len(b))]
+            if op == 'vecdot' and list(a[:-1]) != list(b[:-1]):
+                tags.append('leading-broadcast')      # leading axes of different rank / extent 1 against n
             yield Case('%s a=%s b=%s data=%s' % (op, fmt(a), fmt(b), m), harness, oracle=orc,
-                       nontrivial=(prod(a) > 1 and prod(b) > 1), tags=[op, 'rank=%d,%d' % (len(a), len(b))])
+                       nontrivial=(prod(a) > 1 and prod(b) > 1), tags=tags)
 
     yield from binary('dot', np.dot, 'h_c16_dot', 6000)
     yield from binary('inner', np.inner, 'h_c16_dot', 6000)
@@ -205,6 +279,37 @@ def _gen(tier, rng):
         yield Case('dot_helpers a=%s b=%s' % (fmt(a), fmt(b)), 'h_c16_dot', nontrivial=False, tags=['helpers'])
         yield Case('inner_helpers a=%s b=%s' % (fmt(a), fmt(b)), 'h_c16_dot', nontrivial=False, tags=['helpers'])
         yield Case('kron_helpers a=%s b=%s' % (fmt(a), fmt(b)), 'h_c16_td', nontrivial=False, tags=['helpers'])
+
+    # ---- operand pairs NumPy REFUSES (mismatching contracted extents, batch / leading axes that do not broadcast): every
+    #      routine must answer Nothing (the property: the shape NumPy produces — here none).  view::matmul: matmul_isSome_iff,
+    #      view::dot: dot_isSome_iff (theorem domain); matmulv2 / inner / vecdot / tensordot broadcast a contracted axis of
+    #      extent 1 (known findings matmulv2.contraction-extent-broadcast, C16.contraction-extent-broadcast = C15's class):
+    #      there the model mirrors the code and NumPy judges
+    def refused(fn):
+        return [(a, b) for a, b in pairs if np_try(lambda: fn(np.zeros(a, dtype=np.int8), np.zeros(b, dtype=np.int8))) is None]
+    nref = 260 if quick else 2500
+    for a, b in stride_pick(refused(np.matmul), nref):
+        for impl in ('v1', 'v2'):
+            yield Case('matmul impl=%s a=%s b=%s data=lin' % (impl, fmt(a), fmt(b)), 'h_c16_mm', oracle='nothing', dom=(impl == 'v1'),
+                       nontrivial=False, tags=['matmul', impl, 'refused-by-numpy'])
+    for op, fn, h in (('dot', np.dot, 'h_c16_dot'), ('inner', np.inner, 'h_c16_dot'), ('vecdot', np.vecdot, 'h_c16_dot')):
+        for a, b in stride_pick(refused(fn), nref):
+            yield Case('%s a=%s b=%s data=lin' % (op, fmt(a), fmt(b)), h, oracle='nothing', dom=(op == 'dot'), nontrivial=False,
+                       tags=[op, 'refused-by-numpy'])
+    rtd = []
+    for a, b in pairs:
+        for n in range(1, min(len(a), len(b)) + 1):
+            if a[len(a) - n:] != b[:n]:
+                rtd.append(('tensordot a=%s b=%s axes=%d data=lin' % (fmt(a), fmt(b), n), 'int-axes'))
+        if len(a) <= 3 and len(b) <= 3:
+            for n in range(1, min(len(a), len(b)) + 1):
+                for la in itertools.permutations(range(len(a)), n):
+                    for ra in itertools.permutations(range(len(b)), n):
+                        if any(a[x] != b[y] for x, y in zip(la, ra)):
+                            rtd.append(('tensordot a=%s b=%s la=%s ra=%s data=lin' % (fmt(a), fmt(b), fmt(la), fmt(ra)), 'explicit-axes'))
+    for kind in ('int-axes', 'explicit-axes'):
+        for req, k in stride_pick([t for t in rtd if t[1] == kind], nref):
+            yield Case(req, 'h_c16_td', oracle='nothing', dom=False, nontrivial=False, tags=['tensordot', k, 'refused-by-numpy'])
 
     # ---- tensordot ----
     td = []
@@ -283,6 +388,25 @@ def _gen(tier, rng):
 
     # ---- seeded random larger cases (extents up to 7, rank up to 4), every routine ----
     yield from random_cases(rng, 60 if quick else 600, cap if quick else 4000)
+
+
+MATMUL_KIND_1D = False      # fixed-dim 1-d operands instantiate only on a tree with fix C16-matmul-1d-operand
+
+
+def matmul_kinds(mm, keep, mode):
+    ok = [(a, b) for a, b in mm if (MATMUL_KIND_1D or (len(a) >= 2 and len(b) >= 2))]
+    for lk, rk in (('fd', 'fd'), ('fd', 'dyn'), ('dyn', 'fd')):
+        sel = [(a, b) for a, b in ok if not (len(a) == 1 and len(b) == 1 and lk == 'fd' and rk == 'fd')]
+        if not MATMUL_KIND_1D:
+            sel = [(a, b) for a, b in sel if len(a) >= 2 and len(b) >= 2]
+        for a, b in stride_pick(sel, keep):
+            m = mode()
+            orc = show(np.matmul(mk(a, m, 0), mk(b, m, 1)))
+            tags = ['matmul', 'kinds', 'lhs=' + lk, 'rhs=' + rk, 'rank=%d,%d' % (len(a), len(b))]
+            if len(a) == 1 or len(b) == 1:
+                tags.append('1d-promotion')
+            yield Case('matmul_k a=%s b=%s lhs_kind=%s rhs_kind=%s data=%s' % (fmt(a), fmt(b), lk, rk, m), 'h_c16_mmk', oracle=orc,
+                       mreq='c16.matmul impl=v1 a=%s b=%s data=%s' % (fmt(a), fmt(b), m), nontrivial=a[-1] > 1, tags=tags)
 
 
 def _bc_partner(rng, batch):
